@@ -73,15 +73,20 @@ func (c *FnCtx) doCallVals(p *Path, call *ssa.CallCommon, fnv Val, args []Val, p
 			}
 			p.assume("(or " + strings.Join(tags, " ") + ")") // closed world: listed as an assumption
 			c.note("sealed interface " + typeKey(it) + ": dynamic type assumed to be one of its " + fmt.Sprint(len(impls)) + " implementations in the Helios module")
+			known := -1
+			if k, ok := p.ghost["$dyn:"+recv.T]; ok {
+				fmt.Sscan(k, &known) // this path already fixed the dynamic type of this interface value
+			}
 			for i, impl := range impls {
 				m := c.eng.prog.LookupMethod(impl, call.Method.Pkg(), mname)
-				if m == nil {
+				if m == nil || (known >= 0 && i != known) {
 					continue
 				}
 				q := p
-				if i < len(impls)-1 {
+				if i < len(impls)-1 && known < 0 {
 					q = p.clone()
 				}
+				q.ghost["$dyn:"+recv.T] = fmt.Sprint(i)
 				q.assume(tags[i])
 				q.trace = append(q.trace, "dyn="+typeKey(impl))
 				rv := Val{K: KPtr, T: recv.IVal, Typ: impl}
@@ -253,6 +258,15 @@ func (c *FnCtx) callFunction(p *Path, fn *ssa.Function, args []Val, binds []Val,
 		if ao != nil {
 			for _, o := range outs {
 				c.atomicCheck(o.p, ao, args[0], &aoOld, shortName(name))
+			}
+		}
+		for _, o := range outs {
+			if !o.panic {
+				if len(o.ret) > 0 {
+					c.ghostRet = &o.ret[0]
+				}
+				c.runGhostAt(o.p, "after:"+fn.Name())
+				c.ghostRet = nil
 			}
 		}
 		return outs
@@ -430,6 +444,9 @@ func (c *FnCtx) special(p *Path, fn *ssa.Function, name string, args []Val) ([]o
 	none := func() ([]outcome, bool) { return []outcome{{p: p}}, true }
 	one := func(v Val) ([]outcome, bool) { return []outcome{{p: p, ret: []Val{v}}}, true }
 	timeT := func() types.Type { return c.eng.timeType }
+	if len(args) < len(fn.Params) || (len(args) == 0 && name != "time.Now") {
+		return nil, false
+	}
 	switch name {
 	case "(*sync.Mutex).Lock", "(*sync.RWMutex).Lock":
 		c.lockOp(p, args[0], 2, true)
